@@ -35,6 +35,14 @@ func (c10fs) SetACCEPTVoteproof(context.Context, base.ACCEPTVoteproof) error    
 func (c10fs) Save(context.Context) (base.BlockMap, error)                        { return nil, fmt.Errorf("not saved") }
 func (c10fs) Cancel() error                                                      { return nil }
 
+type c10db struct {
+	db *isaacdatabase.LeveldbBlockWrite
+	st *leveldbstorage.Storage
+	at time.Time
+}
+
+var c10open []c10db
+
 type c10op struct {
 	tok string
 	op  base.Operation
@@ -47,7 +55,7 @@ func runC10(c *Ctx) error {
 	}
 	n := 40
 	if c.Thorough() {
-		n = 1500
+		n = 600
 	}
 	w := &c17world{keys: map[string]int{}}
 	for i := 0; i < n; i++ {
@@ -279,9 +287,16 @@ func runC10(c *Ctx) error {
 					return nil, nil
 				}, nil
 			}
-			// the writer's save worker keeps writing states after Process has returned: the database is left to the
-			// garbage collector, never closed under it
-			bwdb := isaacdatabase.NewLeveldbBlockWrite(base.Height(int64(height)), leveldbstorage.NewMemStorage(), env.encs, env.enc)
+			// the writer's save worker keeps writing states after Process has returned: a database is closed only
+			// two seconds after its run, never under the worker
+			for len(c10open) > 0 && time.Since(c10open[0].at) > 2*time.Second {
+				_ = c10open[0].db.Close()
+				_ = c10open[0].st.Close()
+				c10open = c10open[1:]
+			}
+			mst := leveldbstorage.NewMemStorage()
+			bwdb := isaacdatabase.NewLeveldbBlockWrite(base.Height(int64(height)), mst, env.encs, env.enc)
+			c10open = append(c10open, c10db{db: bwdb, st: mst, at: time.Now()})
 			args := isaac.NewDefaultProposalProcessorArgs()
 			args.MaxWorkerSize = workers
 			args.GetStateFunc = getState
